@@ -325,9 +325,14 @@ def perturb(rng, main_specs, p_by=0.4, max_by=2, roots=False):
         r = rng.choice(ROOTS)
         for s in specs:
             s["root_path"] = r
+    if rng.random() < 0.05:
+        for s in specs:
+            s["in_except"] = True
     for s in specs:
         if "source" not in s:
-            s["source"] = rng.choice(world.SOURCE_KINDS)
+            s["source"] = rng.choice(world.SOURCE_KINDS) if rng.random() < 0.95 else "realfile"
+            if s["source"] == "realfile":
+                s["chunks"] = [rng.randrange(3)]
     if rng.random() < p_by:
         specs += bystanders(rng, rng.randint(1, max_by))
     ids = [s["id"] for s in specs]
@@ -358,8 +363,56 @@ def show_diff(got, exp, what="events"):
     return "%s differ at index %d: got %r, expected %r (lengths %d vs %d)" % (what, d[0], d[1], d[2], len(got), len(exp))
 
 
+def process_env(case):
+    """process-wide settings a host application may have made (drawn from the case's own digest, so a replay needs
+    nothing else): DEBUG logging with a handler that really formats the records, warnings attributed to the library
+    turned into errors"""
+    h = int(__import__("hashlib").sha256(jdump([t.get("data", "")[:64] for t in case["tasks"]]).encode()).hexdigest()[:4], 16)
+    return {"debug_logging": h % 20 == 0, "warnings_as_errors": h % 20 == 1}
+
+
+class _Env:
+    def __init__(self, env):
+        self.env = env
+
+    def __enter__(self):
+        import io
+        import logging
+        import warnings
+        self.saved = None
+        if self.env["debug_logging"]:
+            root = logging.getLogger()
+            self.saved = (root.level, list(root.handlers))
+            self.handler = logging.StreamHandler(io.StringIO())
+            self.handler.setFormatter(logging.Formatter("%(name)s %(levelname)s %(message)s"))
+            root.handlers = [self.handler]
+            root.setLevel(logging.DEBUG)
+        self.cw = None
+        if self.env["warnings_as_errors"]:
+            self.cw = warnings.catch_warnings()
+            self.cw.__enter__()
+            warnings.filterwarnings("error", module=r"tpmstream(\..*)?")
+        return self
+
+    def __exit__(self, *a):
+        import logging
+        if self.saved is not None:
+            root = logging.getLogger()
+            root.handlers = self.saved[1]
+            root.setLevel(self.saved[0])
+        if self.cw is not None:
+            self.cw.__exit__(*a)
+        return False
+
+
 def run_world(case, res=None):
-    w = world.World(case["tasks"], case.get("schedule")).run()
+    env = process_env(case)
+    with _Env(env):
+        w = world.World(case["tasks"], case.get("schedule")).run()
+    if res is not None:
+        for k_, v_ in env.items():
+            if v_:
+                res.count("env:" + k_)
     if res is not None:
         if any(t.get("root_path") for t in case["tasks"]):
             res.count("decoded-under-caller-chosen-root")
@@ -745,3 +798,46 @@ def shrink_buffers(case, ids=("main",)):
         c["faults"] = recs
         c["tasks"] = [dict(t, data=bytes(d2).hex()) if t["id"] in ids else t for t in case["tasks"]]
         yield c
+
+
+# ---- OS threads under a seeded line-level schedule (sim/threads.py, in a fresh interpreter) -----------------------------------
+def check_threads(res, pid, specs, seed, concat=None, label=""):
+    """decodes `specs` concurrently in baton-passed OS threads of a fresh interpreter (one seed = one interleaving at the
+    granularity of lines of library code) and compares every thread's result with the sequential result of the same spec
+    in this process: comparable forms of the events, outcome, re-encoding, object conversion; for identical specs also
+    `==` of the real events / objects across threads; for a stream and its messages the concatenation."""
+    import json
+    from .. import pristine, threads
+    specs = [dict(s_, source="bytes") for s_ in specs]
+    for s_ in specs:
+        for k_ in ("cancel_at", "chunks", "in_except"):
+            s_.pop(k_, None)
+    out = pristine.run_threads(specs, seed, gap=(8, 25, 60, 200)[seed % 4], concat=concat)
+    res.count("thread-probes")
+    if "error" in out:
+        res.v(pid + ".H", "%s.H:threads:hang" % pid, "%s: %s (seed %d)" % (label, out["error"], seed))
+        return
+    res.count("thread-switches", out.get("switches", 0))
+    res.count("thread-lines-traced", out.get("lines", 0))
+    for s_, r_ in zip(specs, out["results"]):
+        seq = threads._body(s_)
+        t = seq["task"]
+        want = json.loads(json.dumps({"items": t.items, "outcome": list(t.outcome()), "reenc": seq["reenc"], "conv": seq["conv"]}, default=str))
+        for aspect in ("outcome", "items", "reenc", "conv"):
+            if r_[aspect] != want[aspect]:
+                res.v(pid + ".H", "%s.H:threads:%s" % (pid, aspect),
+                      "%s: task %s decoded in an OS thread next to %d other decodes (seeded line-level schedule %d, %d switches) differs from the same decode "
+                      "done alone: %s %s vs %s" % (label, s_["id"], len(specs) - 1, seed, out.get("switches", 0), aspect,
+                                                    str(r_[aspect])[:300] if aspect != "items" else show_diff(r_["items"] or [], want["items"]), "" if aspect == "items" else str(want[aspect])[:200]))
+                return
+    for i, j, ev_eq, ob_eq in out["dups"]:
+        has_warning = any(it[0] == "W" for it in (out["results"][i]["items"] or []))
+        if ev_eq is False or ob_eq is False:
+            res.v(pid + ".H", "%s.H:threads:cross-thread-%s" % (pid, "events" if ev_eq is False else "objects"),
+                  "%s: the same arguments decoded in two OS threads (%s, %s; schedule %d) give %s that do not compare equal%s" % (
+                      label, specs[i]["id"], specs[j]["id"], seed, "events" if ev_eq is False else "objects",
+                      " (comparable forms are equal)" if out["results"][i]["items"] == out["results"][j]["items"] else ""))
+            return
+    if concat is not None and out.get("concat") is False:
+        res.v(pid + ".H", "%s.H:threads:stream-vs-messages" % pid, "%s: the stream decoded in one OS thread != the concatenation of its messages decoded in "
+              "other threads (schedule %d), with ==" % (label, seed))
